@@ -45,8 +45,9 @@ func (f *File) SetMapping(codec *charcode.Codec, data map[charcode.Code]cid.CID)
 	for code, cid := range data {
 		buf = codec.AppendCode(buf[:0], code)
 		if f.Parent != nil {
-			parentCID := f.Parent.LookupCID(buf)
-			if parentCID == cid {
+			// only a mapping in the parent makes the entry redundant: a
+			// notdef answer can be overridden by f's own notdef ranges
+			if parentCID, ok := f.Parent.lookupMapped(buf); ok && parentCID == cid {
 				continue
 			}
 		}
